@@ -39,9 +39,9 @@ HARNESSES['pos_conv.roundtrip_final_line_3'] = _pc('roundtrip_final_line', 3, 'r
 
 LEXM = dict(crate=CORE, attach='harper-core/src/lexing/mod.rs', file='lexing.rs', modpath='lexing::__verif_kani_lexing', kind='bounded')
 HARNESSES['lexing.whitespace_5'] = dict(LEXM, harness='whitespace_5', function='lex_spaces / lex_tabs / lex_newlines', bound='every [char] of length 0..=5, fully symbolic chars', timeout=900,
-    says='found_ok; token covers exactly the maximal run of blanks / tabs / LF and records its length (tabs: doubled)')
+    says='found_ok; a Space token covers only blanks (resp. tabs), a Newline token only LF')
 HARNESSES['lexing.whitespace_8'] = dict(LEXM, harness='whitespace_8', function='lex_spaces / lex_tabs / lex_newlines', bound='every [char] of length 0..=8, fully symbolic chars', timeout=1800,
-    says='found_ok; token covers exactly the maximal run of blanks / tabs / LF and records its length (tabs: doubled)')
+    says='found_ok; a Space token covers only blanks (resp. tabs), a Newline token only LF')
 HARNESSES['lexing.hex_4'] = dict(LEXM, harness='hex_4', function='lex_hex_number', bound='every [char] of length 0..=4, fully symbolic chars', timeout=1800,
     says='found_ok; hit = "0x" + hex digits, radix 16')
 HARNESSES['lexing.hostname_4'] = dict(LEXM, harness='hostname_4', function='lex_hostname_token', bound='every [char] of length 0..=4, fully symbolic chars', timeout=1800, says='found_ok')
